@@ -490,6 +490,16 @@ theorem optIterFrom_eq (m : MDP) (v0 : Vec) (h : Nat) : ∀ s, s < m.S → (optI
     rw [mkVec_get _ hs]
     exact bellman_congr m ih s
 
+theorem evalIterFrom_eq (m : MDP) (p : Mat) (v0 : Vec) (h : Nat) :
+    ∀ s, s < m.S → (evalIterFrom m p v0 h).get s = evalFrom m p.get v0.get h s := by
+  induction h with
+  | zero => intro s _; rfl
+  | succ h ih =>
+    intro s hs
+    simp only [evalIterFrom, evalFrom]
+    rw [mkVec_get _ hs]
+    exact bellmanPi_congr m p.get ih s
+
 /-! ## `optH_is_optimal`: the DP values dominate every history-dependent plan and are attained by the greedy plan -/
 
 theorem sumTo_le {n : Nat} {f g : Nat → Rat} (h : ∀ i, i < n → f i ≤ g i) : sumTo n f ≤ sumTo n g := by
